@@ -38,6 +38,9 @@ class Namespace:
 
 
 if z3 is not None:
+    def psum_fn(arr):
+        return z3.Function("psum:" + str(arr)[:80], z3.IntSort(), z3.RealSort())
+
     VT = z3.Function("VT", z3.IntSort(), z3.BoolSort())
 
     def vt_axiom():
@@ -235,6 +238,44 @@ class SymOps:
         wrap = lambda t: Opq(t) if isinstance(t, z3.ExprRef) and t.sort().name() == "V" else t
         return self.eng.equal(wrap(x), wrap(y))
 
+    def psum(self, view, k):
+        """Ghost prefix sum of a 1-D array view: sum of its first k elements (defined by unfolding axioms)."""
+        arr = view._field(view.arr.field)
+        f = psum_fn(arr)
+        return f(view.arr.lo + k) - f(view.arr.lo)
+
+    def psum_axioms(self, view):
+        arr = view._field(view.arr.field)
+        f = psum_fn(arr)
+        j = self._fresh("ps")
+        sel = z3.Select(arr, j)
+        return z3.ForAll([j], f(j + 1) == f(j) + (z3.ToReal(sel) if z3.is_int(sel) else sel), patterns=[f(j + 1)])
+
+    def same_array(self, r, x):
+        """Python-level: r is (a view of) the very array x, not a freshly built one."""
+        return r.base == x.base
+
+    def is_filter(self, r, x, pred):
+        """r holds exactly the rows of x that satisfy pred(i), in order (boolean-mask indexing).
+        Stated through the ghost index maps the mask-indexing model attaches to r."""
+        from .engine import ArrV
+        maps = self.eng.filter_of.get(r.base)
+        if maps is None or maps[0] != x.base:
+            raise BindingError(f"{r.base} is not known to be a filter of {x.base}")
+        _, idx, pos = maps
+        idx, pos = ArrV(self.eng, idx, r.heap), ArrV(self.eng, pos, r.heap)
+        return z3.And(
+            self.forall(0, r.n, lambda j: z3.And(0 <= idx.at(j), idx.at(j) < x.n, self.b(pred(idx.at(j))))),
+            self.forall2(0, r.n, 0, r.n, lambda i, j: z3.Implies(i < j, idx.at(i) < idx.at(j))),
+            self.forall(0, x.n, lambda i: z3.Implies(self.b(pred(i)), z3.And(0 <= pos.at(i), pos.at(i) < r.n,
+                                                                          idx.at(pos.at(i)) == i))))
+
+    def filter_index(self, r, j):
+        """index in the source array of row j of a filtered array (ghost)."""
+        from .engine import ArrV
+        _, idx, pos = self.eng.filter_of[r.base]
+        return ArrV(self.eng, idx, r.heap).at(j)
+
     def inverse_perm(self, perm):
         """Ghost inverse of a sorting permutation produced by the argsort model / contract."""
         from .engine import ArrV
@@ -311,7 +352,7 @@ class ConcOps:
     def call(self, name, *args, sort="V"):
         import importlib
         parts = name.split(".")
-        obj = importlib.import_module(parts[0])
+        obj = importlib.import_module({"np": "numpy"}.get(parts[0], parts[0]))
         for p in parts[1:]:
             obj = getattr(obj, p)
         return obj(*[getattr(a, "arr", a) for a in args])
@@ -348,6 +389,20 @@ class ConcOps:
 
     def eq(self, x, y):
         return x == y
+
+    def same_array(self, r, x):
+        import numpy as np
+        return r.arr is x.arr or (r.n == x.n and r.n > 0 and np.shares_memory(r.arr, x.arr))
+
+    def is_filter(self, r, x, pred):
+        want = [i for i in range(x.n) if bool(pred(i))]
+        return r.n == len(want) and all(r.arr[j].tobytes() == x.arr[i].tobytes() for j, i in enumerate(want))
+
+    def psum(self, view, k):
+        return float(view.arr[: int(k)].sum())
+
+    def psum_axioms(self, view):
+        return True
 
     def inverse_perm(self, perm):
         import numpy as np
